@@ -26,6 +26,8 @@ pub enum Sc {
     MulReg(ScalarSpec, usize),
     /// spec + reg[i]
     AddReg(ScalarSpec, usize),
+    /// product of the listed constants (the empty product is one)
+    Prod(Vec<ScalarSpec>),
 }
 
 pub type Lc = Vec<(Var, Sc)>;
@@ -128,6 +130,8 @@ pub struct Shape {
     pub alloc_single: usize,
     pub tamper: usize,
     pub errs: usize,
+    /// constraints that mention a variable before it exists
+    pub forward: usize,
 }
 
 impl Shape {
@@ -169,6 +173,9 @@ impl Shape {
                 Op::Constrain { err, .. } => {
                     s.cons1 += 1;
                     seen_constrain = true;
+                    if is_forward(op) {
+                        s.forward += 1;
+                    }
                     if err.is_some() {
                         s.errs += 1;
                     }
@@ -201,6 +208,9 @@ impl Shape {
                     }
                     Op::Constrain { err, .. } => {
                         s.cons2 += 1;
+                        if is_forward(op) {
+                            s.forward += 1;
+                        }
                         if err.is_some() {
                             s.errs += 1;
                         }
@@ -261,6 +271,9 @@ impl Shape {
         }
         if self.alloc_single > 0 {
             v.push("single-alloc");
+        }
+        if self.forward > 0 {
+            v.push("forward-reference");
         }
         v
     }
@@ -631,7 +644,268 @@ pub fn gen_program(ch: &mut Choices, curve: Curve, cfg: &GenCfg) -> Program {
         let body: Vec<Op> = bodies[bi].iter().map(|k| fill_op(ch, &mut f, *k)).collect();
         ops[pos] = Op::Closure(body);
     }
-    Program { curve, tlabel, pre, ops, owned, cap_p, cap_v, party_cap, seed, pc, gens }
+    let mut prog = Program { curve, tlabel, pre, ops, owned, cap_p, cap_v, party_cap, seed, pc, gens };
+    // constraints spelled before their variables exist (drawn last: earlier choices keep their meaning)
+    if ch.chance(56) {
+        let k = 1 + ch.below(3);
+        add_forward_refs(ch, &mut prog, k);
+    }
+    prog
+}
+
+// ---------------------------------------------------------------------------------------
+// forward references: constraints spelled over hand-built variables that do not exist yet
+// (the API flattens constraints only at prove / verify time, so this is legitimate use)
+
+/// A variable whose final value is known from the program text alone (the product of `val`),
+/// with the place where its gate / commitment comes to exist.
+#[derive(Clone, Debug)]
+pub struct StaticVar {
+    pub var: Var,
+    pub val: Vec<ScalarSpec>,
+    /// None: created by a top-level op; Some(i): created in the body of the closure at ops[i]
+    pub list: Option<usize>,
+    pub pos: usize,
+}
+
+fn static_of(s: &Sc) -> Option<ScalarSpec> {
+    match s {
+        Sc::C(c) => Some(c.clone()),
+        _ => None,
+    }
+}
+
+pub fn static_vars(prog: &Program) -> Vec<StaticVar> {
+    let mut out = vec![];
+    let mut gates = 0usize;
+    let mut ncom = 0usize;
+    let mut tampered: Vec<usize> = vec![];
+    let mut scan_t = |ops: &Vec<Op>| {
+        for op in ops {
+            if let Op::Tamper { gate, .. } = op {
+                tampered.push(*gate);
+            }
+        }
+    };
+    scan_t(&prog.ops);
+    for op in &prog.ops {
+        if let Op::Closure(b) = op {
+            scan_t(b);
+        }
+    }
+    // (gate, left value, list, pos of the first allocate)
+    let mut pending: Option<(usize, Option<ScalarSpec>, Option<usize>, usize)> = None;
+    let mut walk = |ops: &Vec<Op>, list: Option<usize>, gates: &mut usize, ncom: &mut usize, pending: &mut Option<(usize, Option<ScalarSpec>, Option<usize>, usize)>, out: &mut Vec<StaticVar>| {
+        for (pos, op) in ops.iter().enumerate() {
+            match op {
+                Op::Commit { v, .. } => {
+                    out.push(StaticVar { var: Var::Com(*ncom), val: vec![v.clone()], list, pos });
+                    *ncom += 1;
+                }
+                Op::Alloc { val } => match pending.take() {
+                    None => {
+                        let g = *gates;
+                        *gates += 1;
+                        let l = static_of(val);
+                        if let Some(l) = &l {
+                            out.push(StaticVar { var: Var::L(g), val: vec![l.clone()], list, pos });
+                        }
+                        *pending = Some((g, l, list, pos));
+                    }
+                    Some((g, l, l0, p0)) => {
+                        if let Some(r) = static_of(val) {
+                            out.push(StaticVar { var: Var::R(g), val: vec![r.clone()], list: l0, pos: p0 });
+                            if let Some(l) = l {
+                                out.push(StaticVar { var: Var::O(g), val: vec![l, r], list: l0, pos: p0 });
+                            }
+                        }
+                    }
+                },
+                Op::AllocMul { l, r } => {
+                    let g = *gates;
+                    *gates += 1;
+                    let (ls, rs) = (static_of(l), static_of(r));
+                    if let Some(l) = &ls {
+                        out.push(StaticVar { var: Var::L(g), val: vec![l.clone()], list, pos });
+                    }
+                    if let Some(r) = &rs {
+                        out.push(StaticVar { var: Var::R(g), val: vec![r.clone()], list, pos });
+                    }
+                    if let (Some(l), Some(r)) = (ls, rs) {
+                        out.push(StaticVar { var: Var::O(g), val: vec![l, r], list, pos });
+                    }
+                }
+                Op::Mul { .. } => *gates += 1,
+                _ => {}
+            }
+        }
+    };
+    let close = |pending: &mut Option<(usize, Option<ScalarSpec>, Option<usize>, usize)>, out: &mut Vec<StaticVar>| {
+        if let Some((g, _, l0, p0)) = pending.take() {
+            // closed at the end of the phase with right wire and output zero
+            out.push(StaticVar { var: Var::R(g), val: vec![ScalarSpec::Zero], list: l0, pos: p0 });
+            out.push(StaticVar { var: Var::O(g), val: vec![ScalarSpec::Zero], list: l0, pos: p0 });
+        }
+    };
+    walk(&prog.ops, None, &mut gates, &mut ncom, &mut pending, &mut out);
+    close(&mut pending, &mut out);
+    for (i, op) in prog.ops.iter().enumerate() {
+        if let Op::Closure(b) = op {
+            walk(b, Some(i), &mut gates, &mut ncom, &mut pending, &mut out);
+        }
+    }
+    close(&mut pending, &mut out);
+    out.retain(|s| match s.var {
+        Var::L(g) | Var::R(g) | Var::O(g) => !tampered.contains(&g),
+        _ => true,
+    });
+    out
+}
+
+/// execution-order key of a place: top-level ops first, then closure bodies in registration order
+fn place_key(list: Option<usize>, pos: usize) -> (usize, usize) {
+    match list {
+        None => (0, pos),
+        Some(i) => (1 + i, pos),
+    }
+}
+
+/// insert `op` at a place strictly before every target comes to exist
+fn insert_before(ch: &mut Choices, prog: &mut Program, targets: &[StaticVar], op: Op) {
+    let first = targets.iter().map(|t| place_key(t.list, t.pos)).min().unwrap();
+    let mut lists: Vec<Option<usize>> = vec![None];
+    for (i, op) in prog.ops.iter().enumerate() {
+        if matches!(op, Op::Closure(_)) && 1 + i <= first.0 {
+            lists.push(Some(i));
+        }
+    }
+    let list = lists[ch.below(lists.len())];
+    let len = match list {
+        None => prog.ops.len(),
+        Some(i) => match &prog.ops[i] {
+            Op::Closure(b) => b.len(),
+            _ => unreachable!(),
+        },
+    };
+    let hi = if place_key(list, 0).0 == first.0 { first.1 } else { len };
+    let pos = ch.below(hi + 1);
+    match list {
+        None => prog.ops.insert(pos, op),
+        Some(i) => match &mut prog.ops[i] {
+            Op::Closure(b) => b.insert(pos, op),
+            _ => unreachable!(),
+        },
+    }
+}
+
+/// A *violated* constraint without a constant term over two variables that do not exist yet:
+/// v₂·X₁ − 2·v₁·X₂ with v₁·v₂ ≠ 0 (a commitment and a gate are appended when the program has no
+/// two such variables). Returns false when nothing could be inserted.
+pub fn add_forward_violation(ch: &mut Choices, prog: &mut Program) -> bool {
+    let nonzero = |s: &StaticVar| s.val.iter().all(|v| !v.is_zero_spec());
+    let mut sv: Vec<StaticVar> = static_vars(prog).into_iter().filter(|s| nonzero(s)).collect();
+    if sv.len() < 2 || ch.chance(64) {
+        let a = ScalarSpec::gen_nonzero(ch);
+        let b = ScalarSpec::gen_nonzero(ch);
+        prog.ops.push(Op::Commit { v: a, blind: ScalarSpec::gen(ch) });
+        let last_closure = prog.ops.iter().rposition(|o| matches!(o, Op::Closure(_)));
+        let gate = Op::AllocMul { l: Sc::C(b), r: Sc::C(ScalarSpec::gen(ch)) };
+        match last_closure {
+            Some(i) if ch.chance(160) => match &mut prog.ops[i] {
+                Op::Closure(body) => body.push(gate),
+                _ => unreachable!(),
+            },
+            _ => {
+                if last_closure.is_some() && prog.shape().n2 > 0 {
+                    // a new first-phase gate would renumber the second-phase ones
+                    match &mut prog.ops[last_closure.unwrap()] {
+                        Op::Closure(body) => body.push(gate),
+                        _ => unreachable!(),
+                    }
+                } else {
+                    prog.ops.push(gate)
+                }
+            }
+        }
+        let all = static_vars(prog);
+        let m = prog.shape().m;
+        let n = prog.shape().n();
+        sv = all.into_iter().filter(|s| s.var == Var::Com(m - 1) || s.var == Var::L(n - 1)).collect();
+        if sv.len() < 2 {
+            return false;
+        }
+    }
+    let i = ch.below(sv.len());
+    let mut j = ch.below(sv.len() - 1);
+    if j >= i {
+        j += 1;
+    }
+    let (a, b) = (sv[i].clone(), sv[j].clone());
+    if a.var == b.var {
+        return false;
+    }
+    let mut nb = vec![ScalarSpec::NegSmall(2)];
+    nb.extend(a.val.iter().cloned());
+    let lc = vec![(a.var, Sc::Prod(b.val.clone())), (b.var, Sc::Prod(nb))];
+    insert_before(ch, prog, &[a, b], Op::Constrain { lc, err: None, base: Some(vec![]) });
+    true
+}
+
+/// Is this a forward-reference constraint added by `add_forward_refs`?
+pub fn is_forward(op: &Op) -> bool {
+    matches!(op, Op::Constrain { base: Some(b), lc, .. } if !lc.is_empty() && b.iter().all(|(v, c)| matches!(v, Var::One) && matches!(c, Sc::Prod(_))))
+}
+
+/// Insert up to `max` constraints that mention variables before they exist. Kinds:
+/// general (Σ cᵢ·Xᵢ − Σ cᵢ·vᵢ, constant from the program text), homogeneous pair
+/// (v₂·X₁ − v₁·X₂, no constant term) and homogeneous single (c·X for a variable that is zero).
+/// All are satisfied by construction. Returns the number inserted.
+pub fn add_forward_refs(ch: &mut Choices, prog: &mut Program, max: usize) -> usize {
+    let mut done = 0;
+    for _ in 0..max {
+        let sv = static_vars(prog);
+        if sv.is_empty() {
+            break;
+        }
+        let pick = |ch: &mut Choices| sv[ch.below(sv.len())].clone();
+        let kind = ch.weighted(&[45, 40, 15]);
+        let (targets, lc, base): (Vec<StaticVar>, Lc, Lc) = match kind {
+            0 => {
+                let nt = 1 + ch.below(3);
+                let ts: Vec<StaticVar> = (0..nt).map(|_| pick(ch)).collect();
+                let mut lc = vec![];
+                let mut base = vec![];
+                for t in &ts {
+                    let c = ScalarSpec::gen_nonzero(ch);
+                    lc.push((t.var, Sc::C(c.clone())));
+                    let mut p = vec![c];
+                    p.extend(t.val.iter().cloned());
+                    base.push((Var::One, Sc::Prod(p)));
+                }
+                (ts, lc, base)
+            }
+            1 => {
+                let a = pick(ch);
+                let b = pick(ch);
+                let mut nb = vec![ScalarSpec::MinusOne];
+                nb.extend(a.val.iter().cloned());
+                let lc = vec![(a.var, Sc::Prod(b.val.clone())), (b.var, Sc::Prod(nb))];
+                (vec![a, b], lc, vec![])
+            }
+            _ => {
+                let zeros: Vec<&StaticVar> = sv.iter().filter(|s| s.val.iter().any(|v| v.is_zero_spec())).collect();
+                if zeros.is_empty() {
+                    continue;
+                }
+                let t = zeros[ch.below(zeros.len())].clone();
+                let lc = vec![(t.var, Sc::C(ScalarSpec::gen_nonzero(ch)))];
+                (vec![t], lc, vec![])
+            }
+        };
+        insert_before(ch, prog, &targets, Op::Constrain { lc, err: None, base: Some(base) });
+        done += 1;
+    }
+    done
 }
 
 // ---------------------------------------------------------------------------------------
@@ -642,6 +916,7 @@ fn sc_json(s: &Sc) -> Value {
         Sc::C(c) => json!(c.short()),
         Sc::MulReg(c, r) => json!(format!("{}*c{}", c.short(), r)),
         Sc::AddReg(c, r) => json!(format!("{}+c{}", c.short(), r)),
+        Sc::Prod(v) => json!(v.iter().map(|c| c.short()).collect::<Vec<_>>().join("*")),
     }
 }
 
